@@ -36,6 +36,9 @@ def _c11_small(args):
         out.append(x_text.observe_parse(fx, np, [pid], t, codes, kind, route, raw, shape=(2, len(codes) // 2)))
         for c in ([lo, hi, 0] + ([] if tier != 'thorough' else codes)):
             out.append(x_text.observe_parse(fx, np, [pid], t, c, kind, route, raw))
+        if (idx + len(out)) % 3 == 0 or tier == 'thorough':
+            out.append(x_text.observe_parse(fx, np, [pid], t, codes, kind, route, raw, shape=[None, (2, len(codes) // 2)][idx % 2], npfeed=True))
+            out.append(x_text.observe_parse(fx, np, [pid], t, codes[idx % len(codes)], kind, route, raw, npfeed=True))
     return _tag(out)
 
 
@@ -64,6 +67,10 @@ def _c11_wide(args):
             out.append(x_text.observe_parse(fx, np, [pid], t, rng.choice(codes), kind, route, raw))
             if rng.random() < 0.5:
                 out.append(x_text.observe_parse(fx, np, [pid], t, codes, kind, route, raw, shape=rng.choice([None, (2, 6)])))
+            if rng.random() < 0.4:
+                out.append(x_text.observe_parse(fx, np, [pid], t, rng.choice([rng.choice(codes), codes]), kind, route, raw, npfeed=True))
+            if rng.random() < 0.2:
+                out.append(x_text.observe_parse(fx, np, [pid], t, codes, kind, route, raw, shape=(2, 6), npfeed=True))
     return [o for o in out if o is not None]
 
 
